@@ -46,8 +46,8 @@ TEXT["C17"] = {
     "technique": "Lean 4 structural theorems + three-way differential incl. in-search observation",
 }
 TEXT["C10"] = {
-    "level_text": "Target: kernel-checked exactness of all tables for all 2^64 occupancies (Spec.LookupExact). Every run compares ALL table entries reachable through the masks (107 648 + 128 + 4096) between engine, model and geometric spec, and re-decides the index/shift obligations on the constants extracted from magic.rs.",
+    "level_text": "Kernel-checked theorem lookup_exact : Spec.LookupExact LookupTable.init — for every square and EVERY 64-bit occupancy the rook/bishop/queen lookups (mask, wrapping multiply by the magic, shift, table index) equal 'reachable along open lines up to and including the first blocker'; knight/king tables equal the geometric step patterns; segment and whole-line tables are exact for all 64x64 pairs (empty for non-aligned pairs). Proof: per square, a Nat-based checker enumerates every subset of the relevant mask inside the Lean kernel (no destructive collision, index in range, relevant bits = popcount of mask), a soundness lemma lifts it to all 2^64 occupancies (bits off the mask provably do not matter), plus build-loop invariant (last write wins) and geometric characterisation of the ray walks. Magics, relevant bits and table sizes are re-extracted from magic.rs on every run, so a changed constant re-opens the 128 kernel facts. The exhaustive engine-vs-model-vs-spec table dump ties the model to the code.",
     "design_ref": "DESIGN.md section 6, C10",
-    "level_note": "Trusted: extractor, Lean kernel; until the enumeration proof is integrated, the 'bits off the mask do not matter' half is sampled, not proved.",
-    "technique": "Lean 4 kernel enumeration per square (decide +kernel) + soundness lemma; exhaustive table correspondence",
+    "level_note": "Trusted: Lean kernel (decide +kernel = kernel evaluation, no native_decide), propext/Classical.choice/Quot.sound, extractor, and the model's fidelity to magic.rs/lookup.rs as checked exhaustively over all table entries on every run.",
+    "technique": "Lean 4 kernel enumeration per square (decide +kernel) + soundness lemma to all 2^64 occupancies; exhaustive table correspondence",
 }
